@@ -807,7 +807,25 @@ func c45Exec(x *Ctx) {
 					}
 					x.Probe("tversion-before-the-disconnect")
 				}
+				parked := false
+				if len(some) > 0 && hr.Pct(35) {
+					// the client leaves while a request of its is still inside the implementation
+					tg := uint16(31000 + ci)
+					holdTag[tg] = true
+					s := peer.Write(&Msg{Type: Tstat, Tag: tg, Fid: some[hr.Intn(len(some))]})[0]
+					rt.YieldUntil(rt.SiteActor, func() bool { return len(fs.HeldInvs()) > 0 || s.Reply != nil || peer.EOF })
+					parked = len(fs.HeldInvs()) > 0
+				}
 				sys.Conns[ci].Clnt.Close()
+				if parked {
+					for k := hr.Intn(8); k > 0; k-- {
+						rt.Yield(rt.SiteActor)
+					}
+					for _, h := range fs.HeldInvs() {
+						h.Released = true
+					}
+					x.Probe("request-in-flight-at-the-disconnect")
+				}
 			}
 		}
 		finished = true
